@@ -73,7 +73,9 @@ func endsInNoReturn(info *types.Info, b *cfg.Block) bool {
 // isExitBlock: a live block without successors that leaves the function normally
 // (return statement or falling off the end), not through a call that never returns.
 func isExitBlock(info *types.Info, b *cfg.Block) bool {
-	return b.Live && len(b.Succs) == 0 && !endsInNoReturn(info, b)
+	// The block after the last case of a select without default has no successors either,
+	// but control never gets there.
+	return b.Live && len(b.Succs) == 0 && b.Kind != cfg.KindSelectAfterCase && !endsInNoReturn(info, b)
 }
 
 // nodeLoc identifies a node inside a CFG.
@@ -173,6 +175,8 @@ func nodeText(fset *token.FileSet, n ast.Node) string {
 		}
 	case *ast.ExprStmt:
 		s = types.ExprString(x.X)
+	case *ast.SendStmt:
+		s = types.ExprString(x.Chan) + " <- " + types.ExprString(x.Value)
 	case *ast.AssignStmt:
 		var l, r []string
 		for _, e := range x.Lhs {
